@@ -415,6 +415,16 @@ class P:
                 v2 = self.value(t2)
                 self.expect(")")
                 return ConstExpr(v, [(t1, v1), (t2, v2)], t1)
+            if v == "icmp":
+                pred = self.next()[1]
+                self.expect("(")
+                t1 = self.type()
+                v1 = self.value(t1)
+                self.expect(",")
+                t2 = self.type()
+                v2 = self.value(t2)
+                self.expect(")")
+                return ConstExpr("icmp", [(t1, v1), (t2, v2)], IntTy(1), pred)
             raise IRError("constant word %r" % v)
         if k == "str":
             return ConstBytes(_unescape(v))
